@@ -147,6 +147,23 @@ def case_table(run, i):
         safe(R.do_genemetrics, cna, segs, thr, int(rng.integers(0, 2)), bool(rng.integers(0, 2)), bool(rng.integers(0, 2)), bool(rng.integers(0, 2)))
     safe(R.do_breaks, cna, segs, int(rng.integers(1, 4)))
     safe(R.do_breaks, cna, segs)
+    if i % 4 == 1 and len(cna) > 3:
+        # the same object, edited in place (rows dropped, one gene's bins re-labelled as ignored), then asked again: anything remembered
+        # on the object from the calls above (a gene map, labels) is stale now
+        with run.monitor_scope():
+            keep = rng.random(len(cna)) < 0.8
+            keep[0] = True
+            cna.data = cna.data[keep]
+            names = [g for g in dict.fromkeys(cna["gene"]) if g not in IGN]
+            if names:
+                gone = str(rng.choice(names))
+                cna["gene"] = ["-" if g == gone else g for g in cna["gene"]]
+        run.extra["tables-edited-in-place-and-asked-again"] += 1
+        safe(cna.by_gene)
+        safe(cna.squash_genes)
+        safe(R.do_genemetrics, cna, None, 0.0, 1, False, False, False)
+        safe(R.do_genemetrics, cna, segs, 0.0, 1, False, False, False)
+        safe(R.do_breaks, cna, segs, 1)
     run.end_case(fp=rt.fingerprint(use, 12), nontrivial=any(g not in IGN for g in cols["gene"]),
                  sample={"chromosome": cols["chromosome"][:10], "gene": cols["gene"][:10]} if i % 97 == 0 else None)
 
